@@ -86,12 +86,17 @@ def drive(ctx):
     # whole years x six date forms
     years = list(range(1583, 10000))
     rot = ctx.seed % 40
+    # one year of each of the 14 shapes (leap or common x weekday of 1 January): always, with every parser
+    shapes = {}
+    for y in range(2001, 2041):
+        shapes.setdefault((calendar.isleap(y), calendar.weekday(y, 1, 1)), y)
+    always = set(shapes.values())
     for y in ctx.mine(years):
-        if q and not (y % 40 == rot or y in (1583, 1600, 1900, 2000, 2100, 9999)):
+        if q and not (y % 40 == rot or y in (1583, 1600, 1900, 2000, 2100, 9999) or y in always):
             continue
         for dk in ("cal", "ord", "weekd"):
             for ext in (True, False):
-                for which in (("top", "py", "rs") if not q else (("top", "py", "rs")[(y + len(dk)) % 3],)):
+                for which in (("top", "py", "rs") if not q or y in always else (("top", "py", "rs")[(y + len(dk)) % 3],)):
                     if which == "rs" and ctx.backend == "py":
                         continue
                     ctx.emit("iso_year_scan", {"y": y, "dk": dk, "ext": ext, "which": which})
